@@ -556,7 +556,7 @@ impl Property for C13 {
     fn plan(tier: Tier) -> Plan {
         match tier {
             Tier::Quick => Plan { shards: 16, cases_per_shard: 4, max_shrink_iters: 30 },
-            Tier::Thorough => Plan { shards: 16, cases_per_shard: 25, max_shrink_iters: 80 },
+            Tier::Thorough => Plan { shards: 16, cases_per_shard: 8, max_shrink_iters: 80 },
         }
     }
     fn strategy(tier: Tier) -> BoxedStrategy<Case> {
